@@ -27,6 +27,76 @@ pub enum End {
     Max,
 }
 
+/// Compile-time discovery of the traits an iterator type *declares* (autoref specialisation),
+/// so that the harness keeps building when a declaration is added or dropped and holds a type
+/// only to what it declares.
+pub mod probe {
+    #[repr(transparent)]
+    pub struct Wrap<T>(pub T);
+    pub trait LenYes {
+        fn p_len(&self) -> Option<usize>;
+    }
+    impl<T: ExactSizeIterator> LenYes for Wrap<T> {
+        fn p_len(&self) -> Option<usize> {
+            Some(self.0.len())
+        }
+    }
+    pub trait LenNo {
+        fn p_len(&self) -> Option<usize>;
+    }
+    impl<T> LenNo for &Wrap<T> {
+        fn p_len(&self) -> Option<usize> {
+            None
+        }
+    }
+    pub trait BackYes {
+        type X;
+        fn p_next_back(&mut self) -> Option<Option<Self::X>>;
+    }
+    impl<T: DoubleEndedIterator> BackYes for Wrap<T> {
+        type X = T::Item;
+        fn p_next_back(&mut self) -> Option<Option<T::Item>> {
+            Some(self.0.next_back())
+        }
+    }
+    pub trait BackNo {
+        type X;
+        fn p_next_back(&mut self) -> Option<Option<Self::X>>;
+    }
+    impl<T: Iterator> BackNo for &mut Wrap<T> {
+        type X = T::Item;
+        fn p_next_back(&mut self) -> Option<Option<T::Item>> {
+            None
+        }
+    }
+    pub trait FusedYes {
+        fn p_fused(&self) -> bool;
+    }
+    impl<T: std::iter::FusedIterator> FusedYes for Wrap<T> {
+        fn p_fused(&self) -> bool {
+            true
+        }
+    }
+    pub trait FusedNo {
+        fn p_fused(&self) -> bool;
+    }
+    impl<T> FusedNo for &Wrap<T> {
+        fn p_fused(&self) -> bool {
+            false
+        }
+    }
+    /// `len()` of an arbitrary (adaptor) iterator if it declares an exact size
+    #[macro_export]
+    macro_rules! probe_len {
+        ($it:expr) => {{
+            #[allow(unused_imports)]
+            use $crate::api::probe::{LenNo, LenYes};
+            let w = $crate::api::probe::Wrap($it);
+            (&w).p_len()
+        }};
+    }
+}
+
 pub trait HasherCfg: BuildHasher + Default + Clone + 'static {
     const NAME: &'static str;
     /// lookups are linear under this hasher: keep sizes small
@@ -145,6 +215,19 @@ pub trait QueueApi: Sized + 'static {
 
     // hook
     fn snapshot(&self) -> Snap;
+
+    // declared capabilities of the kind-specific iterator types (see `probe`)
+    type Sorted: Iterator<Item = (Item, Prio)>;
+    fn into_sorted_iter_q(self) -> Self::Sorted;
+    /// `None` = the type does not offer next_back
+    fn im_next_back<'a>(it: &mut Self::IterMut<'a>) -> Option<Option<(&'a mut Item, &'a mut Prio)>>;
+    /// `None` = the type does not declare an exact size
+    fn im_len(it: &Self::IterMut<'_>) -> Option<usize>;
+    fn im_fused(it: &Self::IterMut<'_>) -> bool;
+    fn im_adaptor_len(q: &mut Self, which: usize, k: usize) -> (&'static str, Option<usize>, usize);
+    fn so_next_back(it: &mut Self::Sorted) -> Option<Option<(Item, Prio)>>;
+    fn so_len(it: &Self::Sorted) -> Option<usize>;
+    fn so_adaptor_lens(q: Self, which: usize, k: usize) -> (&'static str, Option<usize>, usize);
 }
 
 macro_rules! common_methods {
@@ -299,6 +382,63 @@ macro_rules! common_methods {
         fn snapshot(&self) -> Snap {
             Snap::from_hook(self.verif_snapshot())
         }
+        fn into_sorted_iter_q(self) -> Self::Sorted {
+            self.into_sorted_iter()
+        }
+        #[allow(unused_imports)]
+        fn im_next_back<'a>(it: &mut Self::IterMut<'a>) -> Option<Option<(&'a mut Item, &'a mut Prio)>> {
+            use probe::{BackNo, BackYes};
+            // SAFETY of the cast: Wrap is a transparent newtype used only to select the impl
+            let w: &mut probe::Wrap<Self::IterMut<'a>> = unsafe { &mut *(it as *mut Self::IterMut<'a> as *mut probe::Wrap<Self::IterMut<'a>>) };
+            (&mut *w).p_next_back()
+        }
+        #[allow(unused_imports)]
+        fn im_len(it: &Self::IterMut<'_>) -> Option<usize> {
+            use probe::{LenNo, LenYes};
+            let w: &probe::Wrap<Self::IterMut<'_>> = unsafe { &*(it as *const Self::IterMut<'_> as *const probe::Wrap<Self::IterMut<'_>>) };
+            (&*w).p_len()
+        }
+        #[allow(unused_imports)]
+        fn im_fused(it: &Self::IterMut<'_>) -> bool {
+            use probe::{FusedNo, FusedYes};
+            let w: &probe::Wrap<Self::IterMut<'_>> = unsafe { &*(it as *const Self::IterMut<'_> as *const probe::Wrap<Self::IterMut<'_>>) };
+            (&*w).p_fused()
+        }
+        /// (adaptor name, its len() if the composition declares an exact size, the true count)
+        fn im_adaptor_len(q: &mut Self, which: usize, k: usize) -> (&'static str, Option<usize>, usize) {
+            let n = $Q::len(q);
+            match which {
+                0 => ("iter_mut().take(k)", $crate::probe_len!(q.iter_mut().take(k)), n.min(k)),
+                1 => ("iter_mut().skip(k)", $crate::probe_len!(q.iter_mut().skip(k)), n.saturating_sub(k)),
+                2 => ("iter_mut().enumerate()", $crate::probe_len!(q.iter_mut().enumerate()), n),
+                3 => ("iter_mut().peekable()", $crate::probe_len!(q.iter_mut().peekable()), n),
+                4 => ("iter_mut().zip(0..k)", $crate::probe_len!(q.iter_mut().zip(0..k)), n.min(k)),
+                _ => ("iter_mut().step_by(k+1)", $crate::probe_len!(q.iter_mut().step_by(k + 1)), (n + k) / (k + 1)),
+            }
+        }
+        #[allow(unused_imports)]
+        fn so_next_back(it: &mut Self::Sorted) -> Option<Option<(Item, Prio)>> {
+            use probe::{BackNo, BackYes};
+            let w: &mut probe::Wrap<Self::Sorted> = unsafe { &mut *(it as *mut Self::Sorted as *mut probe::Wrap<Self::Sorted>) };
+            (&mut *w).p_next_back()
+        }
+        #[allow(unused_imports)]
+        fn so_len(it: &Self::Sorted) -> Option<usize> {
+            use probe::{LenNo, LenYes};
+            let w: &probe::Wrap<Self::Sorted> = unsafe { &*(it as *const Self::Sorted as *const probe::Wrap<Self::Sorted>) };
+            (&*w).p_len()
+        }
+        fn so_adaptor_lens(q: Self, which: usize, k: usize) -> (&'static str, Option<usize>, usize) {
+            let n = $Q::len(&q);
+            match which {
+                0 => ("into_sorted_iter().take(k)", $crate::probe_len!(q.into_sorted_iter().take(k)), n.min(k)),
+                1 => ("into_sorted_iter().skip(k)", $crate::probe_len!(q.into_sorted_iter().skip(k)), n.saturating_sub(k)),
+                2 => ("into_sorted_iter().enumerate()", $crate::probe_len!(q.into_sorted_iter().enumerate()), n),
+                3 => ("into_sorted_iter().peekable()", $crate::probe_len!(q.into_sorted_iter().peekable()), n),
+                4 => ("into_sorted_iter().zip(0..k)", $crate::probe_len!(q.into_sorted_iter().zip(0..k)), n.min(k)),
+                _ => ("into_sorted_iter().step_by(k+1)", $crate::probe_len!(q.into_sorted_iter().step_by(k + 1)), (n + k) / (k + 1)),
+            }
+        }
     };
 }
 
@@ -308,6 +448,7 @@ macro_rules! impl_api {
             type H = $H;
             type Other = DoublePriorityQueue<Item, Prio, $H>;
             type IterMut<'a> = priority_queue::priority_queue::iterators::IterMut<'a, Item, Prio, $H>;
+            type Sorted = priority_queue::priority_queue::iterators::IntoSortedIter<Item, Prio, $H>;
             const KIND: Kind = Kind::Pq;
             fn q_new() -> Self {
                 $pq_new
@@ -345,6 +486,7 @@ macro_rules! impl_api {
             type H = $H;
             type Other = PriorityQueue<Item, Prio, $H>;
             type IterMut<'a> = priority_queue::double_priority_queue::iterators::IterMut<'a, Item, Prio, $H>;
+            type Sorted = priority_queue::double_priority_queue::iterators::IntoSortedIter<Item, Prio, $H>;
             const KIND: Kind = Kind::Dpq;
             fn q_new() -> Self {
                 $dpq_new
